@@ -231,9 +231,15 @@ def r19_3(ctx: Ctx) -> None:
                   construct="unit_pattern use")
     # which group feeds the table lookup
     lookups = [n for n in walk(conv.node) if isinstance(n, ast.Subscript) and isinstance(n.value, ast.Attribute) and n.value.attr == "dunits"]
-    ctx.floor("R19.3", len(lookups), 1, "dunits lookups in _volumesize_unitconv")
-    for lk in lookups:
-        key = lk.slice
+    # `self.dunits.get(unit, default)`: a unit the table does not know silently becomes `default`
+    getters = [n for n in walk(conv.node) if isinstance(n, ast.Call) and attr_tail(n) == "get" and isinstance(n.func.value, ast.Attribute) and n.func.value.attr == "dunits" and n.args]
+    ctx.floor("R19.3", len(lookups) + len(getters), 1, "dunits lookups in _volumesize_unitconv")
+    for lk in lookups + getters:
+        key = lk.slice if isinstance(lk, ast.Subscript) else lk.args[0]
+        default_one = False
+        if isinstance(lk, ast.Call):
+            dflt = lk.args[1] if len(lk.args) > 1 else next((k.value for k in lk.keywords if k.arg == "default"), None)
+            default_one = isinstance(dflt, ast.Constant) and dflt.value == 1
         grp = None
         for v in q.sources_of(conv, key, depth=3):
             if isinstance(v, ast.Call) and attr_tail(v) == "group" and v.args and isinstance(v.args[0], ast.Constant):
@@ -262,8 +268,12 @@ def r19_3(ctx: Ctx) -> None:
                         and pol and isinstance(cond.comparators[0], ast.Attribute) and cond.comparators[0].attr == "dunits":
                     nonempty_known = True
                     L = set()
-        need = {s for s in L if not (s == "" and nonempty_known)}
+        need = {s for s in L if not (s == "" and (nonempty_known or default_one))}
         missing = sorted(s for s in need if s not in dunits)
+        if isinstance(lk, ast.Call) and missing:
+            ctx.fail("R19.3", conv, lk, f"the volume-size pattern accepts unit strings {missing!r} that are not keys of Cli.dunits and the lookup `{norm(lk)}` silently maps them to its "
+                     "default: `-v 1K` passes validation and is then taken as 1 byte per volume", construct="dunits.get(unit) lookup")
+            continue
         ctx.check(not missing, "R19.3", conv, lk, f"unit group language {sorted(L)} within dunits keys",
                   f"the volume-size pattern accepts unit strings {missing!r} that are not keys of Cli.dunits: "
                   f"`-v 1000` (no suffix) passes validation and then raises KeyError('') instead of creating volumes",
@@ -330,7 +340,42 @@ def r19_5(ctx: Ctx) -> None:
     ctx.check(ok, "R19.5", rl, mvl[0] if mvl else rl.node, "`l` opens the set with the digit count of the suffix", "`l` does not derive ext_digits from the suffix", construct="run_list ext_digits")
 
 
+def r19_7(ctx: Ctx) -> None:
+    """`c`/`a` write the archive the user named: the path handed to SevenZipFile / MultiVolume derives from args.arcfile only by
+    appending '.7z' (never by replacing or cutting a part of the name: 'release-1.2' must become 'release-1.2.7z', not 'release-1.7z');
+    and the error channel of the folder tasks (R04.8) is intact, so that `x`/`t` cannot exit 0 when a worker thread failed."""
+    LOSSY = {"with_suffix", "with_name", "with_stem", "splitext", "replace", "rsplit", "split", "removesuffix", "rstrip", "strip", "partition", "rpartition"}
+    n = 0
+    for name in ("run_create", "run_append"):
+        f = _cli(ctx, name)
+        for c in q.calls(f):
+            if attr_tail(c) not in ("SevenZipFile", "MultiVolume") or not c.args:
+                continue
+            tgt = c.args[0]
+            if isinstance(tgt, ast.Name) and any(isinstance(v, ast.Call) and attr_tail(v) == "MultiVolume" for v in q.assigned_values(f, tgt.id)):
+                continue  # the multi-volume object itself, its own construction is checked
+            n += 1
+            seen, todo, bad = set(), [tgt], []
+            while todo:
+                e = todo.pop()
+                for x in ast.walk(e):
+                    if isinstance(x, ast.Call) and isinstance(x.func, ast.Attribute) and x.func.attr in LOSSY:
+                        bad.append(x)
+                    if isinstance(x, ast.Attribute) and x.attr in ("stem", "parent", "name") and not (isinstance(x.value, ast.Name) and x.value.id == "args"):
+                        bad.append(x)
+                    if isinstance(x, ast.Name) and x.id not in seen:
+                        seen.add(x.id)
+                        todo += q.assigned_values(f, x.id)
+                        todo += [a.value for a in walk(f.node) if isinstance(a, ast.AugAssign) and isinstance(a.target, ast.Name) and a.target.id == x.id]
+            ctx.check(not bad, "R19.7", f, c, f"{name}: the archive path is args.arcfile, completed only by appending",
+                      f"{name} derives the archive path with `{norm(bad[0]) if bad else ''}`, which replaces or cuts a part of the name the user gave: `c release-1.2 dir` "
+                      "writes release-1.7z, the archive the user asked for does not exist afterwards and a later `c release-1.3 dir` is refused", construct="archive name derivation")
+    ctx.floor("R19.7", n, 2, "archive openings in run_create/run_append")
+    c04.r04_8(ctx, rule="R19.7")
+
+
 def run(ctx: Ctx) -> None:
+    r19_7(ctx)
     r19_5(ctx)
     c04.r04_7(ctx)
     r19_1(ctx)
